@@ -8,6 +8,7 @@
  *            encode commits the decoder's interval of the clamped value, real-coder round trip               [case = pair]
  *   icdf     (a) every table actually passed to ec_enc_icdf/ec_dec_icdf(16) during a broad encode+decode+hostile-decode
  *            workload, (b) every object of the running binary whose name contains "icdf"                       [1 case]
+ *   symlock  (h_c17_lock.h) every value the live decoder reads through a symbol code was written by the live encoder [case = stream]
  */
 #include "vcodec.h"
 #include "arch.h"
@@ -77,9 +78,9 @@ static void mode_cache(void){
 static int fake_dec=0; static unsigned fake_fm; static unsigned rec_fl,rec_fh,rec_ft; static int rec_n;
 unsigned __real_ec_decode_bin(ec_dec *d,unsigned bits); void __real_ec_dec_update(ec_dec *d,unsigned fl,unsigned fh,unsigned ft); void __real_ec_encode_bin(ec_enc *e,unsigned fl,unsigned fh,unsigned bits);
 unsigned __wrap_ec_decode_bin(ec_dec *d,unsigned bits){ if(fake_dec){ if(bits!=15){ vc_viol("laplace:precision","ec_decode_bin called with %u bits",bits); } return fake_fm; } return __real_ec_decode_bin(d,bits); }
-void __wrap_ec_dec_update(ec_dec *d,unsigned fl,unsigned fh,unsigned ft){ if(fake_dec){ rec_fl=fl; rec_fh=fh; rec_ft=ft; rec_n++; return; } __real_ec_dec_update(d,fl,fh,ft); }
+void __wrap_ec_dec_update(ec_dec *d,unsigned fl,unsigned fh,unsigned ft){ if(vc_verbose>2) fprintf(stderr,"   dec_update [%u,%u) of %u tell=%d storage=%u\n",fl,fh,ft,ec_tell(d),d->storage); if(fake_dec){ rec_fl=fl; rec_fh=fh; rec_ft=ft; rec_n++; return; } __real_ec_dec_update(d,fl,fh,ft); }
 static int fake_enc=0;
-void __wrap_ec_encode_bin(ec_enc *e,unsigned fl,unsigned fh,unsigned bits){ if(fake_enc){ rec_fl=fl; rec_fh=fh; rec_ft=1u<<bits; rec_n++; return; } __real_ec_encode_bin(e,fl,fh,bits); }
+void __wrap_ec_encode_bin(ec_enc *e,unsigned fl,unsigned fh,unsigned bits){ if(vc_verbose>2) fprintf(stderr,"   encode_bin [%u,%u) bits %u tell=%d storage=%u\n",fl,fh,bits,ec_tell(e),e->storage); if(fake_enc){ rec_fl=fl; rec_fh=fh; rec_ft=1u<<bits; rec_n++; return; } __real_ec_encode_bin(e,fl,fh,bits); }
 /* pair collection */
 static unsigned pairs[400][2]; static int npairs=0; static int collecting=0;
 int __real_ec_laplace_decode(ec_dec *dec,unsigned fs,int decay);
@@ -164,7 +165,9 @@ static void mode_icdf(void){
   if(vc_want_sample()) vc_sample("{\"mode\":\"icdf\",\"live_tables\":%d,\"live_uses\":%ld,\"static_objects\":%d,\"static_checked\":%d,\"static_never_seen_live\":%d}",nseen,uses,nt,checked,unseen);
 }
 
+#include "h_c17_lock.h"
+
 int main(int argc,char **argv){
-  static const vc_mode_t modes[]={{"pvq",mode_pvq},{"cache",mode_cache},{"laplace",mode_laplace},{"icdf",mode_icdf},{0,0}};
+  static const vc_mode_t modes[]={{"pvq",mode_pvq},{"cache",mode_cache},{"laplace",mode_laplace},{"icdf",mode_icdf},{"symlock",mode_symlock},{0,0}};
   return vc_main(argc,argv,"C17",modes);
 }
